@@ -18,8 +18,8 @@ import RV.Base.Proto
              (bind E k) (filter E) (subsel star|(proj k…) G)
              E = (var k) (const t) (cmp OP E E) (and E E) (or E E) (not E) (bound k) (exists G) (nexists G)
              query = (select star|(proj k…) G) | (ask G) | (construct (tri …) G)
-  algebra    (bgp s p o …) (join LAZY a b) (leftjoin a b E none|(vars k…) (vars k…)) (filter E a (vars k…) NOISO)
-             (union a b) (minus a b (vars k…)) (extend a k E (vars k…)) (graph POS a) (values (vars k…) (row c…)…)
+  algebra    (bgp s p o …) (join LAZY a b) (leftjoin a b E none|(vars k…) none|(vars k…)) (filter E a (vars k…) NOISO)
+             (union a b) (minus a b none|(vars k…) none|(vars k…)) (extend a k E (vars k…)) (graph POS a) (values (vars k…) (row c…)…)
              (project a (vars k…));   E as above with (exists ALG)
              query = (select (vars k…) a) | (ask (vars k…) a) | (construct (tri …) (vars k…) a)
   answers    vars k,k rows ROW ROW …     ROW = k:term;k:term | -     (rows sorted)
@@ -116,6 +116,10 @@ def vars? : SX → Option (List Nat)
   | .list (.atom "vars" :: xs) => nats? xs
   | _ => none
 
+def ovars? : SX → Option (Option (List Nat))
+  | .atom "none" => some none
+  | x => (vars? x).map some
+
 def cell? (a : String) : Option (Option Term) :=
   if a = "U" then some none else (term? a).map some
 
@@ -152,14 +156,12 @@ partial def expr? : SX → Option Expr
 partial def alg? : SX → Option Alg
   | .list (.atom "bgp" :: xs) => do pure (.bgp (← tps? (← atoms? xs)))
   | .list [.atom "join", .atom l, a, b] => do pure (.join (← bool01? l) (← alg? a) (← alg? b))
-  | .list [.atom "leftjoin", a, b, e, .atom "none", v2] => do
-    pure (.leftJoin (← alg? a) (← alg? b) (← expr? e) none (← vars? v2))
   | .list [.atom "leftjoin", a, b, e, v1, v2] => do
-    pure (.leftJoin (← alg? a) (← alg? b) (← expr? e) (some (← vars? v1)) (← vars? v2))
+    pure (.leftJoin (← alg? a) (← alg? b) (← expr? e) (← ovars? v1) (← ovars? v2))
   | .list [.atom "filter", e, a, vs, .atom ni] => do
     pure (.filter (← expr? e) (← alg? a) (← vars? vs) (← bool01? ni))
   | .list [.atom "union", a, b] => do pure (.union (← alg? a) (← alg? b))
-  | .list [.atom "minus", a, b, vs] => do pure (.minus (← alg? a) (← alg? b) (← vars? vs))
+  | .list [.atom "minus", a, b, v1, v2] => do pure (.minus (← alg? a) (← alg? b) (← ovars? v1) (← ovars? v2))
   | .list [.atom "extend", a, .atom k, e, vs] => do
     pure (.extend (← alg? a) (← k.toNat?) (← expr? e) (← vars? vs))
   | .list [.atom "graph", .atom g, a] => do pure (.graph (← pos? g) (← alg? a))
